@@ -1,7 +1,7 @@
 (* The executable guard of the statement-layer simulation theorem (C01_stmt_preserve_partial):
    the fragment in which every variable is first assigned at top level of the setup part (so it
-   is a C global) or at top level of the `while True:` body before any read of it in that body
-   (so it is a local of loop(), assigned on every pass before it is used), keeps one type, loop bounds do not depend on what the body assigns, loop variables are
+   is a C global) or at top level of the `while True:` body before any read of it in the text of that body
+   (a C global as well, with the type's default initialiser, assigned in place on every pass), keeps one type, loop bounds do not depend on what the body assigns, loop variables are
    fresh, read only inside their loop and never assigned.
    Each clause is forced by a counterexample (see the _refuted theorems and DESIGN.md C01). *)
 From Coq Require Import ZArith List Bool.
@@ -142,7 +142,7 @@ Definition ids_consistent (p : pprog) : bool :=
   forallb (fun a => match info_of p (a_id a) with Some b => ann_eqb a b | None => false end) (prog_anns p).
 
 (* tuple statements at top level of the `while True:` body only assign names declared before them (a tuple
-   DECLARATION there would be a set of loop() locals initialised from temporaries: outside the guard) *)
+   first-assignment there would be a set of globals assigned from temporaries: outside the guard) *)
 Definition no_top_tuple (D : tenv) (ps : list pstmt) : bool :=
   forallb (fun p => match p with
                     | PTuple xs _ => match xs with [] => false | _ => forallb (fun x => tmem x (map fst D)) xs end
